@@ -220,6 +220,8 @@ pub struct Model<'a> {
     recovered: u32,
     /// wrap every node's value in `Val::Node` (mirrors `mk::Opts::wrap`)
     pub wrap: bool,
+    /// position of the most recent failure event
+    last_fail_pos: usize,
 }
 
 #[derive(Clone, Debug)]
@@ -258,6 +260,7 @@ pub fn run_opts(g: &G, w: &[char], st0: St, budget: u64, wrap: bool) -> Outcome 
         depth: 0,
         recovered: 0,
         wrap,
+        last_fail_pos: 0,
     };
     // SAFETY of lifetimes: `g` outlives the model; transmute-free by re-borrowing
     let r = m.ev_root(g, st0);
@@ -305,6 +308,7 @@ impl<'a> Model<'a> {
     }
 
     pub fn fail(&mut self, e: MErr) {
+        self.last_fail_pos = e.pos;
         self.pend = Some(match self.pend.take() {
             None => e,
             Some(p) => {
@@ -405,6 +409,9 @@ impl<'a> Model<'a> {
                         }
                         R::Fail => {
                             self.stats.backtracks += 1;
+                            if self.last_fail_pos > q {
+                                self.stats.deep_backtracks += 1;
+                            }
                             return if items.len() >= lo { Some((items, q, s, em, false)) } else { None };
                         }
                     }
@@ -641,6 +648,9 @@ impl<'a> Model<'a> {
                         r @ R::Ok { .. } => return r,
                         R::Fail => {
                             self.stats.backtracks += 1;
+                            if self.last_fail_pos > p {
+                                self.stats.deep_backtracks += 1;
+                            }
                         }
                     }
                     if self.over {
@@ -653,6 +663,9 @@ impl<'a> Model<'a> {
                 R::Ok { v, end, st, em } => R::Ok { v: Val::some(v), end, st, em },
                 R::Fail => {
                     self.stats.backtracks += 1;
+                    if self.last_fail_pos > p {
+                        self.stats.deep_backtracks += 1;
+                    }
                     Self::ok(Val::Opt(None), p, st)
                 }
             },
